@@ -54,7 +54,7 @@ package keyvalue
 //@ interface Store.Get(ctx context.Context, path string) (rec FileRecord, err error)
 //@   deterministic
 //@   detargs self path
-//@   ensures "record" implies(err == nil, rec != nil && srcOK(rec))
+//@   ensures "record" implies(err == nil, rec != nil && srcOK(rec) && allocated(payload(rec)))
 //@ interface Store.Set(ctx context.Context, path string, src FileRecord) (err error)
 //@   deterministic
 //@   detargs self path src
@@ -109,7 +109,7 @@ package keyvalue
 //@                           old(shErr(u, handler, storeGetW(u.store, path), u.nextOp, storeGetRec(u.store, path), nil))))
 //@   ensures "inv" serInv(u) && implies(old(cancelled(u.ctx)), cancelled(u.ctx))
 //@   ensures "get-world" implies(!old(cancelled(u.ctx)), world() == old(storeGetW(u.store, path)))
-//@   ensures "record" implies(!old(cancelled(u.ctx)) && old(storeGetErr(u.store, path)) == nil, u.results[id].Record != nil && srcOK(u.results[id].Record))
+//@   ensures "record" implies(!old(cancelled(u.ctx)) && old(storeGetErr(u.store, path)) == nil, u.results[id].Record != nil && srcOK(u.results[id].Record) && allocated(payload(u.results[id].Record)))
 //@   ensures "noop-handler" implies(isType(handler, OpHandlerFunc) && noopfn(payload(handler)), cancelled(u.ctx) == old(cancelled(u.ctx)) &&
 //@                   implies(!old(cancelled(u.ctx)), u.results[id].Err == old(storeGetErr(u.store, path))))
 //@   nopanic
@@ -122,7 +122,7 @@ package keyvalue
 //@   ensures "aborted" implies(cancelled(u.ctx), u.results[id].Record == nil && u.results[id].Err == context.Canceled && world() == old(world()))
 //@   ensures "get" implies(!cancelled(u.ctx), u.results[id].Record == old(storeGetRec(u.store, path)) &&
 //@                   u.results[id].Err == old(storeGetErr(u.store, path)) && world() == old(storeGetW(u.store, path)))
-//@   ensures "record" implies(!cancelled(u.ctx) && u.results[id].Err == nil, u.results[id].Record != nil && srcOK(u.results[id].Record))
+//@   ensures "record" implies(!cancelled(u.ctx) && u.results[id].Err == nil, u.results[id].Record != nil && srcOK(u.results[id].Record) && allocated(payload(u.results[id].Record)))
 //@   ensures "inv" serInv(u)
 //@   nopanic
 
@@ -1008,7 +1008,7 @@ package keyvalue
 //@ spec tsRecs(store *transactionOnly) := memStoreOf(store.store).records
 //@ spec resFor(r OpResult, store *transactionOnly, p string) := ite(in(p, dom(tsRecs(store))), r.Record == tsRecs(store)[p] && r.Err == nil && r.Record != nil && mem.recOK(r.Record, memStoreOf(store.store), p),
 //@        r.Record == nil && r.Err == hackpadfs.ErrNotExist)
-//@ spec resUsable(r OpResult) := implies(r.Err == nil, r.Record != nil && srcOK(r.Record))
+//@ spec resUsable(r OpResult) := implies(r.Err == nil, r.Record != nil && srcOK(r.Record) && allocated(payload(r.Record)))
 //@ spec memTxn(txn Transaction) := txn.(*mem.transaction)
 //@ spec serTxn(txn Transaction) := txn.(*unsafeSerialTransaction)
 
@@ -1028,32 +1028,44 @@ package keyvalue
 //@                      serTxn(txn).store == store.store && serTxn(txn).nextOp == rangeindex + 1 && !cancelled(serTxn(txn).ctx) &&
 //@                      forall(i, 0, rangeindex + 1, serTxn(txn).results[i].Op == i && resUsable(serTxn(txn).results[i])))
 //@   ensures "results" implies(tsIsMem(store), err == nil && len(rs) == len(paths) && forall(i, 0, len(paths), rs[i].Op == i && resFor(rs[i], store, paths[i])) && world() == old(world()))
-//@   ensures "serial-results" [C14] implies(!tsIsMem(store) && err == nil, len(rs) == len(paths) && forall(i, 0, len(paths), rs[i].Op == i && resUsable(rs[i])))
+//@   ensures "serial-results" [C14] implies(!tsIsMem(store), err == nil && len(rs) == len(paths) && forall(i, 0, len(paths), rs[i].Op == i && resUsable(rs[i])))
 //@   ensures "fresh" ref(rs) == 0 || fresh(rs)
 //@   ensures "unlocked" implies(tsIsMem(store), tsMem(store))
+//@   ensures "lock-frame" implies(!tsIsMem(store), held(memStoreOf(store.store).mu) == old(held(memStoreOf(store.store).mu)))
 //@   nopanic
 
 //@ spec fsMem(fs *FS) := fsInv(fs) && isMem(fs)
 //@ spec handleFor(f *file, e error, fs *FS, p string) := freshHandle(f, fs, p) && f.flag == 0 &&
 //@        ite(kvHas(fs, p), e == nil && fRec(f).record == kvRec(fs, p) && mem.recOK(fRec(f).record, ms(fs), p), e == hackpadfs.ErrNotExist && fRec(f).record == nil)
 
+// getFiles: mem world exact (handleFor); serial world: one fresh handle per path on the store's record, its error the
+// transaction's result for that path (relational clauses over the results of the call of getFileRecords).
+//@ spec serHandle(f *file, e error, r OpResult, fs *FS, p string) := freshHandle(f, fs, p) && f.flag == 0 && fRec(f).record == r.Record && e == r.Err
+//@ spec serHandleUsable(f *file, e error, fs *FS, p string) := freshHandle(f, fs, p) && f.flag == 0 && implies(e == nil, fRec(f).record != nil && srcOK(fRec(f).record))
 //@ func (fs *FS) getFiles(paths ...string) (files []*file, errs []error)
 //@   props C01 C03 C04 C14 C17
-//@   requires fsMem(fs) && len(paths) < 1<<30
-//@   modifies held(ms(fs).mu)
+//@   requires fsOK(fs) && 0 < len(paths) && len(paths) < 1<<30
+//@   modifies held(ms(fs).mu), world()
+//@   tracks getFileRecords
 //@   loop 1 invariant "valid-so-far" rangeindex >= -1 && rangeindex < max(len(paths), 1) && (len(paths) > 0 || rangeindex == -1) && forall(j, 0, rangeindex + 1, VP(paths[j])) &&
 //@                      len(files) == len(paths) && len(errs) == len(paths) && fresh(files) && fresh(errs) && ref(files) != ref(errs) &&
-//@                      forall(j, 0, len(paths), files[j] == nil && errs[j] == nil)
+//@                      forall(j, 0, len(paths), files[j] == nil && errs[j] == nil) && world() == old(world()) && !called("getFileRecords")
 //@   loop 2 invariant "shape" rangeindex >= -1 && rangeindex < max(len(paths), 1) && (len(paths) > 0 || rangeindex == -1) && forall(j, 0, len(paths), VP(paths[j])) &&
-//@                      len(files) == len(paths) && len(errs) == len(paths) && fresh(files) && fresh(errs) && len(results) == len(paths) && fsMem(fs)
-//@   loop 2 invariant "results" forall(j, 0, len(paths), resFor(results[j], fs.store, paths[j]))
-//@   loop 2 invariant "handles" forall(j, 0, rangeindex + 1, handleFor(files[j], errs[j], fs, paths[j]))
+//@                      len(files) == len(paths) && len(errs) == len(paths) && fresh(files) && fresh(errs) && len(results) == len(paths) && fsOK(fs) &&
+//@                      called("getFileRecords") && result("getFileRecords", 0) == results && result("getFileRecords", 1) == nil && implies(isMem(fs), world() == old(world()))
+//@   loop 2 invariant "results" implies(isMem(fs), forall(j, 0, len(paths), resFor(results[j], fs.store, paths[j]))) && implies(!isMem(fs), forall(j, 0, len(paths), resUsable(results[j])))
+//@   loop 2 invariant "handles" implies(isMem(fs), forall(j, 0, rangeindex + 1, handleFor(files[j], errs[j], fs, paths[j]))) &&
+//@                      implies(!isMem(fs), forall(j, 0, rangeindex + 1, serHandle(files[j], errs[j], results[j], fs, paths[j])))
 //@   loop 2 invariant "distinct" forall(j, 0, rangeindex + 1, forall(k, 0, j, files[j] != files[k] && files[j].fileData != files[k].fileData))
 //@   ensures "shape" len(files) == len(paths) && len(errs) == len(paths) && fresh(files) && fresh(errs)
-//@   ensures "gate" [C04] implies(exists(j, 0, len(paths), !VP(paths[j])), errs[0] == hackpadfs.ErrInvalid && forall(j, 0, len(paths), files[j] == nil))
-//@   ensures "handles" implies(forall(j, 0, len(paths), VP(paths[j])), forall(j, 0, len(paths), handleFor(files[j], errs[j], fs, paths[j])))
+//@   ensures "gate" [C04] implies(exists(j, 0, len(paths), !VP(paths[j])), errs[0] == hackpadfs.ErrInvalid && forall(j, 0, len(paths), files[j] == nil) && world() == old(world()))
+//@   ensures "handles" implies(isMem(fs) && forall(j, 0, len(paths), VP(paths[j])), forall(j, 0, len(paths), handleFor(files[j], errs[j], fs, paths[j])))
+//@   ensures "serial-handles" [C14] implies(!isMem(fs) && forall(j, 0, len(paths), VP(paths[j])), forall(j, 0, len(paths), serHandleUsable(files[j], errs[j], fs, paths[j])))
+//@   ensures "serial-errors-kept" [C14] implies(!isMem(fs) && called("getFileRecords") && result("getFileRecords", 1) == nil,
+//@                     forall(j, 0, len(paths), errs[j] == result("getFileRecords", 0)[j].Err && fRec(files[j]).record == result("getFileRecords", 0)[j].Record))
+//@   ensures "serial-lookup-failure-kept" [C14] implies(called("getFileRecords") && result("getFileRecords", 1) != nil, len(paths) > 0 && errs[0] == result("getFileRecords", 1))
 //@   ensures "distinct" [C17] implies(forall(j, 0, len(paths), VP(paths[j])), forall(j, 0, len(paths), forall(k, 0, j, files[j] != files[k] && files[j].fileData != files[k].fileData)))
-//@   ensures "inv" fsMem(fs)
+//@   ensures "inv" fsOK(fs) && implies(isMem(fs), world() == old(world())) && implies(!isMem(fs), held(ms(fs).mu) == old(held(ms(fs).mu)))
 //@   nopanic
 
 //@ spec wantsWrite(flag int) := flag & (hackpadfs.FlagWriteOnly | hackpadfs.FlagReadWrite | hackpadfs.FlagCreate | hackpadfs.FlagTruncate) != 0
@@ -1063,38 +1075,48 @@ package keyvalue
 
 //@ func (fs *FS) OpenFile(name string, flag int, perm hackpadfs.FileMode) (afFile hackpadfs.File, retErr error)
 //@   props C01 C02 C03 C04 C05 C14 C17
-//@   requires fsMem(fs)
-//@   requires "trunc-data-ok" implies(flag & hackpadfs.FlagTruncate != 0 && kvHas(fs, name), dataOKRec(kvRec(fs, name)))
+//@   requires fsOK(fs)
+//@   requires "serial-no-truncate" implies(!isMem(fs), flag & hackpadfs.FlagTruncate == 0)   // the data blob of a foreign store's record is outside the handle contracts
+//@   requires "trunc-data-ok" implies(isMem(fs) && flag & hackpadfs.FlagTruncate != 0 && kvHas(fs, name), dataOKRec(kvRec(fs, name)))
 //@   use dirValid(name)
 //@   dispatch hackpadfs.FileInfo fileInfo
 //@   dispatch FileRecord *fileData
 //@   modifies world(), mapOf(ms(fs).records), garr("blobAt", payload(rawData(kvRec(fs, name)))), gint("blobLen", payload(rawData(kvRec(fs, name)))),
 //@            rawData(kvRec(fs, name)).(*blob.Bytes).bytes, rawData(kvRec(fs, name)).(*blob.Bytes).length, elems(rawData(kvRec(fs, name)).(*blob.Bytes).bytes)
-//@   ensures "gate" [C04] implies(!VP(name), afFile == nil && pathErr(retErr, "open", name) && errIs(retErr, hackpadfs.ErrInvalid) && memSame(fs))
+//@   ensures "gate" [C04] implies(isMem(fs) && !VP(name), afFile == nil && pathErr(retErr, "open", name) && errIs(retErr, hackpadfs.ErrInvalid) && memSame(fs))
 //@   ensures "typed" [C05] implies(retErr != nil, pathErr(retErr, "open", name))
-//@   ensures "excl" [C01 C05] implies(VP(name) && old(kvHas(fs, name)) && isCreate(flag) && flag & hackpadfs.FlagExclusive != 0, errIs(retErr, hackpadfs.ErrExist) && memSame(fs))
-//@   ensures "isdir" [C01 C05] implies(VP(name) && old(kvHas(fs, name)) && old(memIsDir(fs, name)) && wantsWrite(flag) && !(isCreate(flag) && flag & hackpadfs.FlagExclusive != 0),
+//@   ensures "excl" [C01 C05] implies(isMem(fs) && VP(name) && old(kvHas(fs, name)) && isCreate(flag) && flag & hackpadfs.FlagExclusive != 0, errIs(retErr, hackpadfs.ErrExist) && memSame(fs))
+//@   ensures "isdir" [C01 C05] implies(isMem(fs) && VP(name) && old(kvHas(fs, name)) && old(memIsDir(fs, name)) && wantsWrite(flag) && !(isCreate(flag) && flag & hackpadfs.FlagExclusive != 0),
 //@                     errIs(retErr, hackpadfs.ErrIsDir) && memSame(fs))
-//@   ensures "missing" [C01 C05] implies(VP(name) && !old(kvHas(fs, name)) && !isCreate(flag), errIs(retErr, hackpadfs.ErrNotExist) && memSame(fs))
-//@   ensures "no-parent" [C01 C03 C05] implies(VP(name) && !old(kvHas(fs, name)) && isCreate(flag) && !old(kvHas(fs, pdir(name))), errIs(retErr, hackpadfs.ErrNotExist) && memSame(fs))
-//@   ensures "parent-not-dir" [C01 C03 C05] implies(VP(name) && !old(kvHas(fs, name)) && isCreate(flag) && old(kvHas(fs, pdir(name))) && !old(memIsDir(fs, pdir(name))),
+//@   ensures "missing" [C01 C05] implies(isMem(fs) && VP(name) && !old(kvHas(fs, name)) && !isCreate(flag), errIs(retErr, hackpadfs.ErrNotExist) && memSame(fs))
+//@   ensures "no-parent" [C01 C03 C05] implies(isMem(fs) && VP(name) && !old(kvHas(fs, name)) && isCreate(flag) && !old(kvHas(fs, pdir(name))), errIs(retErr, hackpadfs.ErrNotExist) && memSame(fs))
+//@   ensures "parent-not-dir" [C01 C03 C05] implies(isMem(fs) && VP(name) && !old(kvHas(fs, name)) && isCreate(flag) && old(kvHas(fs, pdir(name))) && !old(memIsDir(fs, pdir(name))),
 //@                     errIs(retErr, hackpadfs.ErrNotDir) && memSame(fs))
-//@   ensures "created" [C01 C03] implies(VP(name) && !old(kvHas(fs, name)) && isCreate(flag) && old(kvHas(fs, pdir(name))) && old(memIsDir(fs, pdir(name))) && retErr == nil,
+//@   ensures "created" [C01 C03] implies(isMem(fs) && VP(name) && !old(kvHas(fs, name)) && isCreate(flag) && old(kvHas(fs, pdir(name))) && old(memIsDir(fs, pdir(name))) && retErr == nil,
 //@                     kvHas(fs, name) && isType(kvRec(fs, name), mem.fileRecord) && memRec(fs, name).mode == perm & hackpadfs.ModePerm)
-//@   ensures "created-frame" [C01 C03] implies(VP(name) && !old(kvHas(fs, name)), memSameExcept(fs, name))
-//@   ensures "truncated" [C01 C02] implies(retErr == nil && flag & hackpadfs.FlagTruncate != 0 && old(kvHas(fs, name)),
+//@   ensures "created-frame" [C01 C03] implies(isMem(fs) && VP(name) && !old(kvHas(fs, name)), memSameExcept(fs, name))
+//@   ensures "truncated" [C01 C02] implies(isMem(fs) && retErr == nil && flag & hackpadfs.FlagTruncate != 0 && old(kvHas(fs, name)),
 //@                     blob.blobLen(old(rawData(kvRec(fs, name)))) == 0 && isType(kvRec(fs, name), mem.fileRecord) && memRec(fs, name).data == old(rawData(kvRec(fs, name))))
-//@   ensures "not-truncated" [C01 C02] implies(flag & hackpadfs.FlagTruncate == 0 && old(kvHas(fs, name)), kvRec(fs, name) == old(kvRec(fs, name)) &&
+//@   ensures "not-truncated" [C01 C02] implies(isMem(fs) && flag & hackpadfs.FlagTruncate == 0 && old(kvHas(fs, name)), kvRec(fs, name) == old(kvRec(fs, name)) &&
 //@                     blob.blobLen(rawData(kvRec(fs, name))) == old(blob.blobLen(rawData(kvRec(fs, name)))))
-//@   ensures "existing-kept" [C01 C03] implies(VP(name) && old(kvHas(fs, name)), memSameExcept(fs, name) && kvHas(fs, name))
+//@   ensures "existing-kept" [C01 C03] implies(isMem(fs) && VP(name) && old(kvHas(fs, name)), memSameExcept(fs, name) && kvHas(fs, name))
 //@   ensures "wrapper" [C02] implies(retErr == nil, afFile != nil &&
 //@                     iff(isType(afFile, *writeOnlyFile), flag & hackpadfs.FlagWriteOnly != 0) &&
 //@                     iff(isType(afFile, *file), flag & hackpadfs.FlagWriteOnly == 0 && flag & hackpadfs.FlagReadWrite != 0) &&
 //@                     iff(isType(afFile, *readOnlyFile), flag & hackpadfs.FlagWriteOnly == 0 && flag & hackpadfs.FlagReadWrite == 0))
 //@   ensures "handle" [C02 C17] implies(retErr == nil, openedFile(afFile) != nil && fresh(openedFile(afFile)) && !openedFile(afFile).closed && openedFile(afFile).offset == 0 &&
 //@                     openedFile(afFile).flag == flag && openedFile(afFile).fileData != nil && fresh(openedFile(afFile).fileData) && openedFile(afFile).fileData.path == name && openedFile(afFile).fileData.fs == fs)
-//@   ensures "mem-world" world() == old(world())
-//@   ensures "inv" fsMem(fs)
+//@   ensures "mem-world" implies(isMem(fs), world() == old(world()))
+//@   ensures "inv" fsOK(fs)
+//@   tracks getFiles
+//@   propagates [C14] setFile
+//@   propagates [C14] Truncate
+//@   ensures "gate-any-world" [C04] implies(!VP(name), afFile == nil && pathErr(retErr, "open", name) && errIs(retErr, hackpadfs.ErrInvalid) && world() == old(world()))
+//@   ensures "serial-lookup-error" [C14] implies(!isMem(fs) && VP(name) && called("getFiles") && result("getFiles", 1)[0] != nil && !errIs(result("getFiles", 1)[0], hackpadfs.ErrNotExist),
+//@                     afFile == nil && retErr != nil && innerErr(retErr) == result("getFiles", 1)[0])
+//@   ensures "serial-parent-lookup-error" [C14] implies(!isMem(fs) && VP(name) && called("getFiles") && errIs(result("getFiles", 1)[0], hackpadfs.ErrNotExist) && isCreate(flag) && result("getFiles", 1)[1] != nil,
+//@                     afFile == nil && retErr != nil && innerErr(retErr) == result("getFiles", 1)[1])
+//@   ensures "serial-missing" [C14 C05] implies(!isMem(fs) && VP(name) && called("getFiles") && errIs(result("getFiles", 1)[0], hackpadfs.ErrNotExist) && !isCreate(flag), afFile == nil && errIs(retErr, hackpadfs.ErrNotExist))
 //@   ensures "tree" [C03] implies(isMem(fs) && old(treeInv(fs)), treeInv(fs))
 //@   nopanic
 
